@@ -222,6 +222,74 @@ def call_py(c, w, nodes):
     raise ValueError(c)
 
 
+# ---- FNode's own constructors (methods and infix operators): a second entry to the manager ----
+NUMLIT = ("int", "frac", "float")
+MIRROR = {"LE": "GE", "LT": "GT", "GE": "LE", "GT": "LT"}
+
+
+def fnode_variants(c):
+    """[(via, call the manager must execute)] : the ways to issue call c through FNode methods / operators."""
+    k = c[0]
+    out = []
+    if k == "nary":
+        opn, args = c[1], c[2]
+        if args and args[0][0] == "node":
+            if opn in ("And", "Or"):
+                out.append(("method", c))                       # a.And(b, c, ...)
+            if len(args) == 2:
+                out.append(("op", c))                           # a & b, a | b, a + b, a * b
+        if len(args) == 2 and args[1][0] == "node":
+            if (opn in ("Plus", "Times") and args[0][0] in NUMLIT) or (opn in ("And", "Or") and args[0][0] == "bool"):
+                out.append(("rop", c))                          # 3 + b, True & b  (reflected operator)
+        if opn == "Plus" and len(args) == 2 and args[0] == ("int", 0) and args[1][0] == "node":
+            out.append(("pos", c))                              # +b  is Plus(0, b)
+    elif k == "not":
+        if c[1][0] == "node":
+            out += [("method", c), ("op", c)]                   # a.Not(), ~a
+    elif k == "bin":
+        opn, a, b = c[1], c[2], c[3]
+        if a[0] == "node":
+            if opn in ("Equals", "Implies", "Iff"):
+                out.append(("method", c))
+            else:
+                out.append(("op", c))                           # a - b, a / b, a // b, a <= b ...
+        elif a[0] in NUMLIT and b[0] == "node":
+            if opn in ("Minus", "Div"):
+                out.append(("rop", c))                          # 3 - b
+            elif opn in MIRROR:
+                out.append(("rop", ("bin", MIRROR[opn], b, a)))  # 3 <= b  is  b.__ge__(3) = GE(b, 3)
+        if opn == "Minus" and a == ("int", 0) and b[0] == "node":
+            out.append(("neg", c))                              # -b  is Minus(0, b)
+    return out
+
+
+def call_fnode(c0, via, w, nodes, rng):
+    """Issue the ORIGINAL call c0 through the FNode entry `via`."""
+    import operator as op
+    k = c0[0]
+    if k == "nary":
+        opn, args = c0[1], c0[2]
+        py = [arg_py(a, w, nodes) for a in args]
+        if via == "method":
+            return getattr(py[0], opn)(*py[1:])
+        if via == "pos":
+            return +py[1]
+        f = {"And": op.and_, "Or": op.or_, "Plus": op.add, "Times": op.mul}[opn]
+        return f(py[0], py[1])
+    if k == "not":
+        n = arg_py(c0[1], w, nodes)
+        return n.Not() if via == "method" else ~n
+    opn = c0[1]
+    a, b = arg_py(c0[2], w, nodes), arg_py(c0[3], w, nodes)
+    if via == "method":
+        return getattr(a, opn)(b)
+    if via == "neg":
+        return -b
+    f = {"Minus": op.sub, "Div": rng.choice([op.truediv, op.floordiv]), "LE": op.le, "LT": op.lt, "GE": op.ge,
+         "GT": op.gt}[opn]
+    return f(a, b)
+
+
 def payload_code(n, w):
     """(coq literal, json-able key) of a node's payload"""
     nt = n.node_type.name
@@ -343,6 +411,10 @@ class Gen:
     def new_call(self):
         rng = self.rng
         r = rng.random()
+        if r < 0.03 and self.pool["num"]:
+            n0 = ("node", rng.choice(self.pool["num"]))
+            if self.small(n0[1]):
+                return ("nary", "Plus", [("int", 0), n0], False) if rng.random() < 0.5 else ("bin", "Minus", ("int", 0), n0)
         if r < 0.26:
             opn = rng.choice(["And", "Or", "Plus", "Times"])
             kind = "bool" if opn in ("And", "Or") else "num"
@@ -470,8 +542,19 @@ def run_history(rng, n_steps, stats):
             stats["repetitions"] += 1
         else:
             c = g.new_call()
+        # half of the calls that can be written with FNode's methods / operators go through that entry
+        variants = fnode_variants(c)
+        via = None
+        if variants and rng.random() < 0.5:
+            via, executed = rng.choice(variants)
+            stats["via_fnode"] = stats.get("via_fnode", 0) + 1
+            stats["via:" + via] = stats.get("via:" + via, 0) + 1
         try:
-            n = call_py(c, w, g.nodes)
+            if via is None:
+                n = call_py(c, w, g.nodes)
+            else:
+                n = call_fnode(c, via, w, g.nodes, rng)
+                c = executed                                      # what the manager has to execute for it
             out = ("ok", n)
         except UPTypeError:
             out = ("err", "EType")
@@ -481,6 +564,8 @@ def run_history(rng, n_steps, stats):
             out = ("err", "EArity")
         except Exception as e:                                    # any other class: never what the model says
             out = ("err", "EBadRef", type(e).__name__)
+        if via is not None:
+            c = executed
         calls.append(c)
         outcomes.append(out)
         stats[c[1] if c[0] in ("nary", "bin") else c[0]] = stats.get(c[1] if c[0] in ("nary", "bin") else c[0], 0) + 1
